@@ -36,10 +36,11 @@ CORPUS = [
     '10 FOR i = 1 TO 2 : FOR j = 1 TO 2 : PUNCH i*10+j : NEXT : NEXT\n20 FOR i = 1 TO 2 : FOR j = 1 TO 2 : PUNCH i*10+j : NEXT i\n30 PUNCH i, j\n40 SAVE i',
     '10 GOSUB 100 : PUNCH 2\n20 SAVE 3 : END\n100 PUNCH 1 : GOSUB 200 : RETURN\n200 PUNCH 1.5 : RETURN',
     '10 STOP',
+    '10 PUT$(PAD("x", 300), 1)\n20 a$ = GET$(1)\n30 PUNCH LEN(a$), a$\n40 PUT$(PAD("y", 256), 2) : SAVE LEN(GET$(2))',
     '10 PUNCH 1\n20 PUNCH "a" + 1',
 ]
 PEEKPOKE = ['10 PUNCH PEEK(8)', '10 POKE 8, 1']
-GETS_LONG = '10 PUT$(PAD("x", 300), 1)\n20 a$ = GET$(1)\n30 PUNCH LEN(a$)\n40 SAVE LEN(a$)' 
+
 
 
 def unhex(h):
@@ -66,7 +67,6 @@ def run_model(ctx, cases):
             if len(parts) < 4:
                 raise RuntimeError("pmodel basic: bad line " + line[:200])
             res[cs[int(w[1])][0]] = dict(status=w[2], kind=w[3], ub=w[4] == "ub=1", warn=int(w[5].split("=")[1]),
-                                         gets=(len(w) > 6 and w[6] == "gets=1"),
                                          punch=[dec_item(x) for x in parts[1].split()], text=dec_item(parts[2]),
                                          save=None if parts[3].strip() == "none" else dec_item(parts[3].strip()))
         return res
@@ -230,16 +230,6 @@ def ub_excused(m, problem):
     return bool(m["ub"]) and not problem.startswith(("crash", "hang"))
 
 
-def gets_finding(ctx, m, problem, text):
-    """GET$ of a stored string longer than 255 characters overflows a 256-byte buffer in the real engine
-    (finding basic-gets-long-string): a disagreement of such a program is that finding, not a new violation"""
-    if m.get("gets") and problem:
-        ctx.finding("basic-gets-long-string", "GET$ of a string longer than 255 characters: " + problem,
-                    {"program": text, "hosts": HOSTS})
-        return True
-    return False
-
-
 def check_program(ctx, exe, text, hosts=HOSTS, with_hp=False):
     """full comparison of one program; returns list of problems"""
     mcases = [("m0", 0, text)] + ([("m1", 1, text)] if with_hp else [])
@@ -299,10 +289,6 @@ def run(ctx):
         if rs["p"]["status"].startswith("sig"):
             ctx.finding("basic-peek-poke", f"BASIC PEEK/POKE dereference an arbitrary address: {text!r} ends with {rs['p']['status']}",
                         {"program": text, "hosts": ["punch"]})
-    # ---- finding: GET$ copies the stored string into a 256-byte buffer
-    pr, ms_, rs_ = check_program(ctx, exe, GETS_LONG)
-    if pr:
-        gets_finding(ctx, ms_["m0"], pr[0], GETS_LONG)
     progs = [dict(text=t, kind="corpus", hist={}, nlines=t.count("\n") + 1) for t in CORPUS] + make_programs(ctx, n)
     stats = dict(programs=len(progs), judged_pairs=0, value_cells=0, ref_ok=0, ref_err=0, ref_fuel=0, ref_unsupported=0, ref_ub=0,
                  skipped_large=0, real_timeouts=0, ub_differences_not_judged=0, error_class_same=0, error_class_other=0, hp_programs=0)
@@ -381,8 +367,6 @@ def run(ctx):
                     problems.append("hosts disagree: " + pr)
             if m["status"] in ("ok", "err") and not m["kind"].startswith("unsupported"):
                 distinct.add(hash(p["text"]))
-            if problems and gets_finding(ctx, m, problems[0], p["text"]):
-                problems = []
             if problems and not ctx.violations:
                 report(ctx, exe, p, problems)
             if len(ctx.cov["samples"]) < 3 and m["status"] == "ok" and 1 <= len(m["punch"]) <= 6 and p["kind"] == "valid":
@@ -455,9 +439,6 @@ def replay(ctx, data):
             ctx.finding("basic-peek-poke", f"{text!r} ends with {rs['p']['status']}", {"program": text, "hosts": ["punch"]})
         return
     pr, ms, rs = check_program(ctx, exe, text, with_hp=True)
-    if pr and gets_finding(ctx, ms["m0"], pr[0], text):
-        print("replay result: finding basic-gets-long-string:", pr)
-        return
     print("reference:", ms["m0"]["status"], ms["m0"]["kind"], [repr(x) for x in ms["m0"]["punch"][:20]], "save", ms["m0"]["save"])
     for h in rs:
         print("real", h, rs[h]["status"], [repr(x) for x in rs[h]["items"][:20]], rs[h]["err"][:200].replace("\n", " / "))
